@@ -582,7 +582,9 @@ def _r4_r5(chk: Check) -> None:
     code_cls = None
     for t in T.all():
         for e in t.events:
-            if e.kind == 'store_attr' and isinstance(freeze(e.value), tuple) and freeze(e.value)[:1] == ('new',):
+            if e.kind == 'store_attr' and isinstance(freeze(e.value), tuple) and freeze(e.value)[:1] == ('new',) \
+                    and not (isinstance(freeze(e.obj), tuple) and freeze(e.obj)[:1] in (('new',), ('obj',))):
+                # (a store into the parser's own objects - not a constructor filling the node it builds)
                 code_cls = freeze(e.value)[1]
     if code_cls is None:
         raise AnalysisError('anchor vanished: no grammar action stores the statement-list node')
